@@ -1219,6 +1219,10 @@ func (v *VMValue) ItemGet(ctx *Context, index *VMValue) *VMValue {
 
 			rIndex := index.MustReadInt()
 			_index := getClampRealIndex(ctx, rIndex, IntType(len(rstr)))
+			if _index >= IntType(len(rstr)) {
+				// 下标被截到了末尾之后: 没有字符可取(原先会读到底层数组的多余容量，容量用尽时越界崩溃)
+				return NewStrVal("")
+			}
 
 			newArr := string(rstr[_index : _index+1])
 			return NewStrVal(newArr)
